@@ -640,7 +640,11 @@ func main() {
 				// cost is quadratic in the token length: sizes and counts are kept moderate)
 				for i := 0; i < g.Scale(6, 40); i++ {
 					tok := bigToken(g.R, 4200+g.R.Intn(g.Scale(4000, 9000)))
-					s := randString(g.R, classAlpha, 6) + " " + tok + "  " + randString(g.R, classAlpha, 20)
+					pre := randString(g.R, classAlpha, 6)
+					if i%2 == 0 {
+						pre = "w" + strconv.Itoa(i) // a random prefix often leaves a quote open and the token is scanned in another state
+					}
+					s := pre + " " + tok + "  " + randString(g.R, classAlpha, 20)
 					g.Emit("S "+hx(s), true, "big-token")
 					for j, k := range bigFrags {
 						if g.Thorough() || j%3 == i%3 {
